@@ -67,6 +67,7 @@ void fpEval(const json &in, json &out) {
         const json &xs = in.at("xs");
         for (size_t i = 0; i < xs.size(); i++)
           acc.cmp(a(Codec<F>::dec(xs[i])), ratQ(in.at("E")[i]), ratQ(in.at("S")[i]), "x" + std::to_string(i));
+#ifndef VH_NO_EXACT_TWIN
         try {  // second pass with full-mantissa coefficients (see vh_fp.h)
           const Grid<Rat> gr = mkGrid<Rat>(ja.at("g"));
           const auto ap = perturbedSpline(a, caseKey(in));
@@ -75,6 +76,7 @@ void fpEval(const json &in, json &out) {
             acc.cmp(ap(Codec<F>::dec(xs[i])), ratToQ(ar(Codec<Rat>::dec(xs[i]))), 2 * ratQ(in.at("S")[i]), "px" + std::to_string(i));
         } catch (const RatError &) {
         }
+#endif
       }
     });
   });
@@ -95,6 +97,7 @@ void fpBin(const json &in, json &out) {
           cmpSpline(acc, a + b, in.at("E").at("add"), in.at("S").at("add"), "add");
           cmpSpline(acc, a - b, in.at("E").at("sub"), in.at("S").at("sub"), "sub");
           cmpSpline(acc, a * b, in.at("E").at("mul"), in.at("S").at("mul"), "mul");
+#ifndef VH_NO_EXACT_TWIN
           try {  // second pass with full-mantissa coefficients (see vh_fp.h)
             const Grid<Rat> gr = mkGrid<Rat>(ja.at("g"));
             const auto ap = perturbedSpline(a, caseKey(in));
@@ -106,6 +109,7 @@ void fpBin(const json &in, json &out) {
             cmpSplineTwin(acc, ap * bp, ar * br, in.at("S").at("mul"), "pmul");
           } catch (const RatError &) {
           }
+#endif
         }
       });
     });
